@@ -37,9 +37,22 @@ def bounds(tier):
 JSON_OBJS = [[], [{'a': 'x'}], [{'a': '\u00e9'}, {'b': '\U0001F600'}], [{'a': 1}, {'b': '\ufeff'}, {'c': 'e\u0301'}]]
 
 
+# other spellings of the same encodings (codecs.lookup resolves them to the same codec)
+ALIASES = [('utf_16', 'utf-16'), ('UTF16', 'utf-16'), ('U16', 'utf-16'), ('utf_32', 'utf-32'), ('U32', 'utf-32'), ('utf8', 'utf-8'),
+           ('UTF-8', 'utf-8'), ('U8', 'utf-8'), ('iso-8859-1', 'latin-1'), ('L1', 'latin-1'), ('utf-16-le', None), ('utf-32-be', None),
+           ('utf-8-sig', None)]
+
+
+def is_latin(enc):
+    import codecs
+    return codecs.lookup(enc).name == 'iso8859-1'
+
+
 def units(tier):
     L = 3 if tier == 'quick' else 4
     out = []
+    for alias, _ in ALIASES:
+        out.append({'fam': 'codec', 'enc': alias, 'L': 2, 'shard': [0, 1]})
     for enc in ENCODINGS:
         for comp in (None, 'gzip', 'zstd'):
             out.append({'fam': 'json', 'enc': enc, 'comp': comp})
@@ -58,7 +71,7 @@ def cases(unit):
             yield {'fam': 'json', 'enc': unit['enc'], 'comp': unit['comp'], 'objs': i}
         return
     sh, n = unit['shard']
-    alpha = LATIN if unit['enc'] == 'latin-1' else ALPHA
+    alpha = LATIN if is_latin(unit['enc']) else ALPHA
     for i, idx in enumerate(spaces.sequences(range(len(alpha)), unit['L'])):
         if i % n == sh:
             yield {'enc': unit['enc'], 'strings': list(idx)}
@@ -203,7 +216,7 @@ def run_case(case, acc):
     if case.get('fam') == 'json':
         return run_json(case, acc)
     enc = case['enc']
-    alpha = LATIN if enc == 'latin-1' else ALPHA
+    alpha = LATIN if is_latin(enc) else ALPHA
     strings = [alpha[i] for i in case['strings']]
     text = ''.join(strings)
     sink = run([rs.data.encode(enc)], strings)
